@@ -124,7 +124,94 @@ Definition dealias_func (f : func) : func :=
          (map (fun e => match alias_source e with Some _ => ELiteral (LBool false) | None => rename_expr r e end) es)
          (f_expr_types f) (map (rstmt r) (f_body f)) (f_named f).
 
-Definition lenient (m : module) : module := map_funcs (fun f => lenient_func (dealias_func f)) m.
+(* ---- ExprPhi at if / switch merge points (mem2reg phase B): converted back to a slot.
+        Incoming values are stored into a fresh local at the end of the corresponding branch;
+        the phi becomes a Load of that local, evaluated by the Emit that follows the construct.
+        Loop-header phis are left alone (mem2reg does not produce them; if one appears the
+        interpreter stops with "not modelled"). PredKey numbers: ir/expression.go PhiPredKey. ---- *)
+Record phi_in := mkphi { pi_key : nat; pi_case : nat; pi_value : nat }.
+Definition phi_table := list (nat * list phi_in).
+
+Section DePhi.
+Variable ph : phi_table.
+Variable slot : nat -> nat.     (* phi handle -> handle of the ELocalVariable expression of its slot *)
+
+Definition find_phi (h : nat) : list phi_in :=
+  match find (fun p => Nat.eqb (fst p) h) ph with Some p => snd p | None => [] end.
+
+Fixpoint leading_emits (b : list stmt) : list nat :=
+  match b with
+  | SEmit a c :: b' => seq a (c - a) ++ leading_emits b'
+  | _ => []
+  end.
+
+Definition stores_for (sel : phi_in -> bool) (hs : list nat) : list stmt :=
+  flat_map (fun h => flat_map (fun i => if sel i then [SStore (slot h) (pi_value i)] else []) (find_phi h)) hs.
+
+Definition key_is (k : nat) (i : phi_in) : bool := Nat.eqb (pi_key i) k.
+Definition case_is (c : nat) (i : phi_in) : bool := (Nat.eqb (pi_key i) 4 && Nat.eqb (pi_case i) c)%bool.
+
+Fixpoint dstmt (after : list nat) (s : stmt) : list stmt :=
+  let fix go (b : list stmt) : list stmt :=
+    match b with [] => [] | x :: b' => dstmt (leading_emits b') x ++ go b' end in
+  match s with
+  | SIf c a r => [SIf c (go a ++ stores_for (key_is 0) after) (go r ++ stores_for (key_is 1) after)]
+  | SSwitch sel cases =>
+    stores_for (key_is 5) after ++
+    [SSwitch sel ((fix goc (idx : nat) (cs : list (switch_value * list stmt * bool)) :=
+                     match cs with
+                     | [] => []
+                     | (v, b, ft) :: cs' => (v, go b ++ stores_for (case_is idx) after, ft) :: goc (S idx) cs'
+                     end) 0 cases)]
+  | SLoop b c bi => [SLoop (go b) (go c) bi]
+  | SBlock b => [SBlock (go b)]
+  | _ => [s]
+  end.
+Fixpoint dblock (b : list stmt) : list stmt :=
+  match b with [] => [] | x :: b' => dstmt (leading_emits b') x ++ dblock b' end.
+End DePhi.
+
+Fixpoint index_in (h : nat) (l : list nat) (i : nat) : nat :=
+  match l with [] => 0 | x :: l' => if Nat.eqb x h then i else index_in h l' (S i) end.
+
+Definition zeroable (t : ty) : bool :=
+  match ty_inner t with
+  | TScalar s => match skind s with Sint | Uint | Float => Z.eqb (swidth s) 4 | SBool => true | _ => false end
+  | _ => false
+  end.
+Fixpoint first_zeroable (ts : list ty) (i : nat) : nat :=
+  match ts with [] => 0 | t :: ts' => if zeroable t then i else first_zeroable ts' (S i) end.
+
+Definition dephi_func (types : list ty) (ph : phi_table) (f : func) : func :=
+  let mergeable := filter (fun p => forallb (fun i => negb (Nat.eqb (pi_key i) 2 || Nat.eqb (pi_key i) 3)) (snd p)) ph in
+  match mergeable with
+  | [] => f
+  | _ =>
+    let hs := map fst mergeable in
+    let n := List.length (f_exprs f) in
+    let nl := List.length (f_locals f) in
+    let slot := fun h => n + index_in h hs 0 in
+    let t0 := first_zeroable types 0 in
+    mkfunc (f_name f) (f_args f) (f_result f)
+           (f_locals f ++ map (fun _ => mklocal "_phi" t0 None) hs)
+           (map (fun p => if existsb (Nat.eqb (fst p)) hs then ELoad (slot (fst p)) else snd p) (combine (seq 0 n) (f_exprs f))
+            ++ map (fun h => ELocalVariable (nl + index_in h hs 0)) hs)
+           (f_expr_types f) (dblock mergeable slot (f_body f)) (f_named f)
+  end.
+
+(* phis: one table per function, in the order functions ++ entry points *)
+Definition dephi (phis : list phi_table) (m : module) : module :=
+  let nf := List.length (m_functions m) in
+  let tab := fun i => nth i phis [] in
+  mkmodule (m_types m) (m_constants m) (m_globals m) (m_global_exprs m)
+           (map (fun p => dephi_func (m_types m) (tab (fst p)) (snd p)) (combine (seq 0 nf) (m_functions m)))
+           (map (fun p => let e := snd p in
+                          mkep (ep_name e) (ep_stage e) (ep_workgroup e) (dephi_func (m_types m) (tab (nf + fst p)) (ep_func e)))
+                (combine (seq 0 (List.length (m_entry_points m))) (m_entry_points m)))
+           (m_overrides m).
+
+Definition lenient (phis : list phi_table) (m : module) : module :=
+  map_funcs (fun f => lenient_func (dealias_func f)) (dephi phis m).
 
 Definition count_lazy (m : module) : nat :=
   List.length (filter (fun f => negb (block_size (f_body (lenient_func f)) =? block_size (f_body f))) (all_funcs m)).
